@@ -7,7 +7,9 @@ from .world import World, SESSIONS
 GEN_FILES = ["GenWorkLog", "GenCheckpoint"]
 DRIVERS = ["worklog"]
 PROPERTY_FILES = ["C03"]
-THEOREMS = ["C03_write_initial_exact", "C03_stale_initial_refuted", "C03_latest_entry_decides"]
+THEOREMS = ["C03_write_initial_exact", "C03_stale_initial_refuted", "C03_latest_entry_decides",
+            "C03_initial_exact_when_unchanged", "C03_first_checkpoint_is_positional", "C03_initial_claims_ignore_content",
+            "C03_initial_positional_refuted"]
 CLAIM = {
     "text": "Partial proof (safety invariant). Theorems (closed): rewriting the INITIAL store leaves exactly the non-empty claims "
             "it was given, in particular nothing when all were filtered away (C03_write_initial_exact; false before fix bae84d67: "
@@ -218,6 +220,53 @@ def scenario_stale_then_bring(args):
         shutil.rmtree(sim.base, ignore_errors=True)
 
 
+def scenario_initial_anchor(args):
+    """tie for Model/InitialAnchor.v: a partial commit carries the agent's claims for f over as line numbers; a person
+    then rewrites the file by hand (any mixture of keeping the agent's lines, removing them, typing new ones) and
+    commits.  Returns the facts for the model (claims, snapshot, current as line ids) and what the binary blames."""
+    base, seed, idx, opts = args
+    r = C.Rng(seed).fork(f"c03-ia-{idx}")
+    sim = Sim(base, f"ia{idx}")
+    try:
+        n = r.range(2, 6)
+        ids = {}
+        def lid(t):
+            return ids.setdefault(t, len(ids) + 1)
+        base_lines = [f"b{idx}-{i}" for i in range(n)]
+        sim.init({"f.txt": "\n".join(base_lines) + "\n", "o.txt": "o\n"})
+        p = r.range(0, n)
+        k = r.range(1, 3)
+        ai = [f"AI{idx}-{j}" for j in range(k)]
+        snap = base_lines[:p] + ai + base_lines[p:]
+        sess = r.pick(SESSIONS)
+        _ai(sim, sess, "f.txt", "\n".join(snap) + "\n")
+        sim.write("o.txt", "o\no2\n")
+        sim.realgit("add", "o.txt")
+        sim.git("commit", "-q", "-m", "only o")
+        # the person's rewrite: drop some of the agent's lines, keep others, type new lines anywhere
+        cur = []
+        for t in snap:
+            if t.startswith("AI") and r.chance(1, 2):
+                continue
+            if r.chance(1, 4):
+                cur.append(f"H{idx}-{len(cur)}")
+            cur.append(t)
+        for _ in range(r.range(0, 2)):
+            cur.insert(r.range(0, len(cur)), f"H{idx}-x{len(cur)}")
+        if cur == snap:
+            cur.insert(p, f"H{idx}-same")
+        sim.write("f.txt", "\n".join(cur) + "\n")
+        sim.realgit("add", "-A")
+        sim.git("commit", "-q", "-m", "person")
+        bl = sim.blame("f.txt")
+        head_prev = base_lines            # f at the previous commit: only lines the commit adds can be in its note
+        return {"idx": idx, "claims": [[p + 1, p + k, 1]], "snapshot": [lid(t) for t in snap], "current": [lid(t) for t in cur],
+                "added": [i + 1 for i, t in enumerate(cur) if t not in head_prev], "blamed": sorted(bl) if bl is not None else None,
+                "texts": cur}
+    finally:
+        shutil.rmtree(sim.base, ignore_errors=True)
+
+
 def witness_k1(base):
     """AI edit, git stash (content gone, checkpoint entry stays), amend of the commit that added the file's lines"""
     sim = Sim(base, "k1")
@@ -326,6 +375,24 @@ def run(ctx):
     else:
         n_ini = 0
         obligations.append(("tie:correspondence Model/WorkLog.v write_initial vs write_initial_attributions", False, "model did not build"))
+    # tie for Model/InitialAnchor.v: the model's reading of carried-over claims predicts the binary exactly
+    n_ia = 24 if ctx.tier == "quick" else 400
+    ia = C.parallel_map(scenario_initial_anchor, [(ctx.scratch, ctx.seed, i, {}) for i in range(n_ia)])
+    ia = [x for x in ia if "error" not in x and x.get("blamed") is not None]
+    ia_bad, ia_wrong_human = [], 0
+    if ctx.model_ok and ia:
+        out = C.run_cases(C.driver_path("worklog"), "wl-anchor",
+                          [(str(x["idx"]), C.sx(x["claims"]) + " " + C.sx(x["snapshot"]) + " " + C.sx(x["current"])) for x in ia])
+        for x in ia:
+            got = C.sx_parse_many(out.get(str(x["idx"]), "() ()"))
+            model_lines = sorted(int(e[0]) for e in got[0] if int(e[0]) in x["added"])
+            spec_lines = sorted(int(e[0]) for e in got[1] if int(e[0]) in x["added"])
+            if model_lines != x["blamed"]:
+                ia_bad.append(f"case {x['idx']}: model {model_lines} binary {x['blamed']} for {x['texts']}")
+            if model_lines != spec_lines:
+                ia_wrong_human += 1
+    obligations.append(("tie:correspondence Model/InitialAnchor.v (first checkpoint after a carry-over) vs the binary's blame",
+                        ctx.model_ok and bool(ia) and not ia_bad, "; ".join(ia_bad[:2])))
     for label, fn in KNOWN:
         if fn(ctx.scratch):
             known.append(label)
@@ -340,4 +407,5 @@ def run(ctx):
                                  "after every op blame of every file at HEAD is compared with the ground truth for INVENTED attribution; "
                                  "non-trivial = contains a destructive or stash op; distinct by op trace",
                          "samples": [{"trace": r_["trace"][:10]} for r_ in res[:3] if "trace" in r_],
-                         "input_distribution": ops_hist, "known_class_hits_in_random_runs": hits}}
+                         "input_distribution": ops_hist, "known_class_hits_in_random_runs": hits,
+                         "initial_anchor_cases": len(ia), "initial_anchor_cases_where_positional_differs_from_by_content": ia_wrong_human}}
